@@ -4,6 +4,7 @@
 //!   tree  ::= const <c> | rbf <l> | seard L<k> <l…> | ess <l> <p> | rq <s> <a> | matern <nu> <l> | white <s>
 //!           | add <tree> <tree> | mul <tree> <tree>
 //!   X     ::= <n> <d> <n·d coordinates, row-major>
+//! ops: kernel.{cov, diag, cov_with_grad, parameters, n_parameters, reparameterize, consume_parameters, roundtrip}
 //!
 //! The composition types `AddKernel<A, B>` / `ProductKernel<A, B>` are static generics.  To run the real combinator
 //! code on trees of ANY depth, `KE` is an enum over the seven leaf structs plus `Box<AddKernel<KE, KE>>` /
@@ -222,6 +223,16 @@ pub fn dispatch(op: &str, _kind: &str, a: &mut Args) -> Option<String> {
             let ps = a.list(|a| a.f());
             match k.consume_parameters(ps) {
                 Ok((k2, rest)) => format!("{} {}", wr_vec(&k2.parameters()), tok(&rest.collect::<Vec<f64>>())),
+                Err(e) => wr_kerr(&e),
+            }
+        }
+        // k' = k.reparameterize(&k.parameters()) through the real code; its parameters and its covariance(X, X)
+        "kernel.roundtrip" => {
+            let k = rd_tree(a);
+            let x = rd_pts(a);
+            let ps: Vec<f64> = k.parameters().iter().copied().collect();
+            match k.reparameterize(&ps) {
+                Ok(k2) => format!("{} {}", wr_vec(&k2.parameters()), wr_mat(&k2.covariance(&x, &x))),
                 Err(e) => wr_kerr(&e),
             }
         }
